@@ -10,4 +10,6 @@ struct Deq { struct ResOp *items; size_t head; size_t len; };
 struct Mutex { int d; };
 struct CondVar { int d; };
 struct ULock { struct Mutex *m; _Bool owns; };
+/* recording ghost for the delegation proofs of the public entry points and guards */
+int g_called; struct Res *g_called_on; int g_called_type; _Bool g_called_lock;
 #endif
